@@ -37,3 +37,56 @@ Theorem C09_preamble_layout :
     exists c, lenprefix 2 context = Some c /\ p = (STR_CONTEXT ++ c ++ u ++ req ++ s ++ l2 ++ n ++ e)%list.
 Proof. exact @preamble_Ok. Qed.
 Print Assumptions C09_preamble_layout.
+
+(* ---- the code-shaped model computes the RFC's functions (Spec/Rfc.v is the transcription of the RFC
+   pseudocode; proofs in Theory/Refines.v).  [to_opt] forgets which error the model names. *)
+From Coq Require Import NArith.
+From OKE Require Import Laws Rfc Refines.
+
+Theorem C09_expand_label_is_rfc :
+  forall E Sc Pk Sk (CS : Suite E Sc Pk Sk) secret label context,
+    to_opt (hkdf_expand_label CS secret label context) = Expand_Label CS secret label context (h_len (hash CS)).
+Proof. exact @expand_label_refines. Qed.
+Print Assumptions C09_expand_label_is_rfc.
+
+Theorem C09_preamble_is_rfc :
+  forall context cid sid u s ke1 resp nonce keyshare,
+    lenprefix 2 cid = Some u -> lenprefix 2 sid = Some s ->
+    to_opt (preamble context u ke1 s resp nonce keyshare) = Preamble context cid ke1 sid resp nonce keyshare.
+Proof. exact @preamble_refines. Qed.
+Print Assumptions C09_preamble_is_rfc.
+
+Theorem C09_derive_keys_is_rfc :
+  forall E Sc Pk Sk (CS : Suite E Sc Pk Sk), HashLaws (hash CS) -> forall dh1 dh2 dh3 pre,
+    to_opt (derive_3dh_keys CS dh1 dh2 dh3 (h_hash (hash CS) pre)) =
+    option_map (fun k => (rfc_session_key k, Km2 k, Km3 k, rfc_handshake_secret k)) (DeriveKeys CS (dh1 ++ dh2 ++ dh3)%list pre).
+Proof. exact @derive_keys_refines. Qed.
+Print Assumptions C09_derive_keys_is_rfc.
+
+Theorem C09_cleartext_credentials_is_rfc :
+  forall ids cpk spk u s,
+    bytestrings_from_identifiers ids cpk spk = Ok (u, s) ->
+    CreateCleartextCredentials spk cpk (id_server ids) (id_client ids) = Some (construct_aad u s spk).
+Proof. exact @cleartext_credentials_refines. Qed.
+Print Assumptions C09_cleartext_credentials_is_rfc.
+
+Theorem C09_oprf_finalize_is_rfc :
+  forall E Sc Pk Sk (CS : Suite E Sc Pk Sk) input blind ev,
+    List.length (o_ser_e (oprf CS) (o_mul (oprf CS) ev (o_inv (oprf CS) blind))) = o_Noe (oprf CS) ->
+    (N.of_nat (o_Noe (oprf CS)) < 65536)%N ->
+    to_opt (voprf_finalize (hash CS) (oprf CS) blind input ev) = Finalize CS input blind ev.
+Proof. exact @finalize_refines. Qed.
+Print Assumptions C09_oprf_finalize_is_rfc.
+
+Theorem C09_oprf_derive_key_pair_is_rfc :
+  forall E Sc Pk Sk (CS : Suite E Sc Pk Sk) seed info,
+    to_opt (voprf_derive_key (oprf CS) seed info) = DeriveKeyPair CS seed info.
+Proof. exact @derive_key_pair_refines. Qed.
+Print Assumptions C09_oprf_derive_key_pair_is_rfc.
+
+Theorem C09_server_finish_is_rfc :
+  forall E Sc Pk Sk (CS : Suite E Sc Pk Sk) st fin,
+    to_opt (server_login_finish CS st fin) =
+    ServerFinish (h_hmac (hash CS) (sl_km3 st) (sl_hashed_transcript st)) (sl_session_key st) (cf_mac fin).
+Proof. exact @server_finish_refines. Qed.
+Print Assumptions C09_server_finish_is_rfc.
